@@ -22,7 +22,8 @@ Proof. autounfold with c14gen. sm_simpl. repeat split; lra. Qed.
 Print Assumptions C14_thresholds.
 
 Ltac thr := pose proof C14_thresholds as (Tv & Tvn & Tq & Tw & TS & TSn & T2).
-Ltac um := unfold m_unitvec, m_qunit, m_trnorm33, m_trnorm44, m_unittwist, m_unittwist2, m_twist3_unit in *.
+Ltac um := unfold m_twist3_unit, m_twist2_unit in *; fold (@m_unittwist R Rops) in *;
+  unfold m_unitvec, m_qunit, m_trnorm33, m_trnorm44, m_trnorm22, m_trnorm23, m_unittwist, m_unittwist2 in *.
 
 (* ================================================================ Part 2: the property, for the models *)
 (* ---- trnorm, 3x3 *)
@@ -243,21 +244,81 @@ Proof.
 Qed.
 Print Assumptions C14_angdiff_instances.
 
-(* ---- Twist3.unit (SMTwist.unit) normalises the WHOLE 6-vector.
-   FULL STATEMENT (false): forall S U, m_twist3_unit S = Some U -> unit_twist_spec thr_w U *)
-Theorem C14_twist3_unit_refuted :
-  exists S U, m_twist3_unit Rops S = Some U /\ ~ unit_twist_spec (thr_twist_w Rops) U.
-Proof. thr. um. apply twist3_unit_refuted; lra. Qed.
-Print Assumptions C14_twist3_unit_refuted.
-
-Theorem C14_twist3_unit_partial : forall S U, m_twist3_unit Rops S = Some U ->
-  dot6 Rops U U = 1 /\
-  (tw_v S = (0,0,0) -> normsq3 Rops (tw_w U) = 1) /\ (tw_w S = (0,0,0) -> normsq3 Rops (tw_v U) = 1).
+(* ---- Twist3.unit / Twist2.unit (fix ca82070): they ARE unittwist / unittwist2 of the twist vector (definitionally for
+   the models; for all inputs on every path of the traced class methods by C14_bridge_twist_unit below), so the
+   full-strength statement holds: unit rotational part above the threshold, else unit translational part; direction kept;
+   a valid unit twist is returned unchanged.  What is still wrong is inherited from base.unittwist/unittwist2 only
+   (C14_unittwist_valid_idempotent_refuted/_partial: rotational part below the threshold but not zero). *)
+Theorem C14_twist3_unit : forall S,
+  m_twist3_unit Rops S = m_unittwist Rops S /\
+  (forall U, m_twist3_unit Rops S = Some U ->
+    (thr_twist_w Rops <= norm3 Rops (tw_w S) -> normsq3 Rops (tw_w U) = 1) /\
+    (norm3 Rops (tw_w S) < thr_twist_w Rops -> normsq3 Rops (tw_v U) = 1) /\
+    (exists k, 0 < k /\ U = (let '(a,b,c,d,e,f) := S in (k*a, k*b, k*c, k*d, k*e, k*f))) /\
+    (thr_twist_w Rops <= norm3 Rops (tw_w S) \/ tw_w S = (0,0,0) ->
+       unit_twist_spec (thr_twist_w Rops) U /\ m_twist3_unit Rops U = Some U)) /\
+  (normsq3 Rops (tw_w S) = 1 \/ (norm3 Rops (tw_w S) < thr_twist_w Rops /\ normsq3 Rops (tw_v S) = 1) ->
+     m_twist3_unit Rops S = Some S).
 Proof.
-  thr. intros S U H. um. split; [eapply twist3_unit_whole; [|exact H]; lra|].
-  eapply twist3_unit_partial; [|exact H]. lra.
+  intros S. split; [reflexivity|]. split.
+  - intros U H. change (m_unittwist Rops S = Some U) in H.
+    destruct (C14_unittwist S U H) as (H1 & H2 & H3).
+    split; [exact H1|]. split; [exact H2|]. split; [exact H3|].
+    intros G. exact (C14_unittwist_valid_idempotent_partial S U H G).
+  - intros H. apply (C14_unittwist_defined S). exact H.
 Qed.
-Print Assumptions C14_twist3_unit_partial.
+Print Assumptions C14_twist3_unit.
+
+Theorem C14_twist2_unit : forall v0 v1 w,
+  m_twist2_unit Rops (v0,v1,w) = m_unittwist2 Rops (v0,v1,w) /\
+  (let '(u0,u1,x) := m_twist2_unit Rops (v0,v1,w) in
+   (thr_twist2_w Rops <= Rabs w -> x*x = 1) /\
+   (Rabs w < thr_twist2_w Rops -> (v0,v1) <> (0,0) -> u0*u0+u1*u1 = 1)) /\
+  (thr_twist2_w Rops <= Rabs w \/ (w = 0 /\ (v0,v1) <> (0,0)) ->
+     unit_twist2_spec (thr_twist2_w Rops) (m_twist2_unit Rops (v0,v1,w)) /\
+     m_twist2_unit Rops (m_twist2_unit Rops (v0,v1,w)) = m_twist2_unit Rops (v0,v1,w)) /\
+  (w*w = 1 \/ (Rabs w < thr_twist2_w Rops /\ v0*v0+v1*v1 = 1) -> m_twist2_unit Rops (v0,v1,w) = (v0,v1,w)).
+Proof.
+  intros v0 v1 w. split; [reflexivity|]. split; [apply (C14_unittwist2 v0 v1 w)|]. split.
+  - apply (C14_unittwist2_valid_idempotent_partial v0 v1 w).
+  - apply (C14_unittwist2_direction_fixed v0 v1 w).
+Qed.
+Print Assumptions C14_twist2_unit.
+
+(* ---- trnorm2 (new with the fix 7bb8ca6), 2x2 and 3x3: projects onto SO(2) / SE(2), keeps the direction of the second
+   column (y-axis) and the translation, fixes valid input, idempotent; None (TypeError) exactly when the second column
+   is not longer than the unitvec threshold *)
+Theorem C14_trnorm2_projects : forall R R', m_trnorm22 Rops R = Some R' ->
+  SO2 R' /\ (exists k, 0 < k /\ (let '((_,b),(_,d)) := R' in (b,d)) = (let '((_,r01),(_,r11)) := R in (k*r01, k*r11))) /\
+  m_trnorm22 Rops R' = Some R'.
+Proof.
+  thr. intros R R' H. um. destruct (trnorm22_SO2 (thr_unitvec Rops) R R' ltac:(lra) H) as [H1 H2].
+  repeat split; try assumption; try apply H1. eapply trnorm22_idem; [|exact H]. lra.
+Qed.
+Print Assumptions C14_trnorm2_projects.
+
+Theorem C14_trnorm2_defined_fixed : forall r00 r01 r10 r11,
+  (m_trnorm22 Rops ((r00,r01),(r10,r11)) = None <-> norm2 Rops (r01,r11) <= thr_unitvec Rops) /\
+  (1/1000000 <= norm2 Rops (r01,r11) -> exists R', m_trnorm22 Rops ((r00,r01),(r10,r11)) = Some R') /\
+  (SO2 ((r00,r01),(r10,r11)) -> m_trnorm22 Rops ((r00,r01),(r10,r11)) = Some ((r00,r01),(r10,r11))).
+Proof.
+  thr. intros. um. split; [apply trnorm22_none|]. split.
+  - intros H. apply trnorm22_defined. lra.
+  - intros H. apply trnorm22_fixed; [lra|exact H].
+Qed.
+Print Assumptions C14_trnorm2_defined_fixed.
+
+Theorem C14_trnorm23 : forall A,
+  (forall A', m_trnorm23 Rops A = Some A' ->
+     SE2 A' /\ transl2 A' = transl2 A /\ m_trnorm22 Rops (t2r2 A) = Some (t2r2 A') /\ m_trnorm23 Rops A' = Some A') /\
+  (SE2 A -> m_trnorm23 Rops A = Some A).
+Proof.
+  thr. intros A. um. split.
+  - intros A' H. destruct (trnorm23_SE2 (thr_unitvec Rops) A A' ltac:(lra) H) as (H1 & H2 & H3).
+    repeat split; try assumption; try apply H1. eapply trnorm23_idem; [|exact H]. lra.
+  - intros H. apply trnorm23_fixed; [lra|exact H].
+Qed.
+Print Assumptions C14_trnorm23.
 
 (* ---- non-vacuity: concrete non-trivial inputs meeting the hypotheses used above *)
 Lemma sqrt_ge_1 x : 1 <= x -> 1 <= sqrt x.
@@ -293,6 +354,17 @@ Proof.
     pose proof (norm6_ge_v (3,4,0,0,0,0)) as G. cbn [tw_v] in G. lra.
   - rewrite Rabs_pos_eq; lra.
   - intros H; injection H; lra.
+Qed.
+
+Example C14_nonvacuous_trnorm2 :
+  (exists R', m_trnorm22 Rops ((1,3),(0,4)) = Some R') /\ ~ SO2 ((1,3),(0,4)) /\ SO2 ((0,-1),(1,0)) /\
+  SE2 ((0,-1,5),(1,0,6),(0,0,1)).
+Proof.
+  thr. um. split; [|split; [|split]].
+  - apply trnorm22_defined. apply Rlt_le_trans with 1; [lra|]. unfold norm2; cbn [sqrt_ Rops]. apply sqrt_ge_1. nm_simpl. lra.
+  - unfold SO2. lra.
+  - unfold SO2. repeat split; ring.
+  - unfold SE2. nm_simpl. unfold SO2. split; [repeat split; ring|reflexivity].
 Qed.
 
 (* ================================================================ Part 3: models = traces of the library *)
@@ -434,9 +506,38 @@ Proof.
 Qed.
 Print Assumptions C14_bridge_trnorm_pc.
 
-Theorem C14_bridge_twist3_unit : forall S, pc_T3_unit Rops S -> m_twist3_unit Rops S = Some (tr_T3_unit Rops S).
-Proof. intros S H. bridge. Qed.
-Print Assumptions C14_bridge_twist3_unit.
+(* the class methods Twist3.unit / Twist2.unit, traced through the constructors, are unittwist / unittwist2 on every path *)
+Theorem C14_bridge_twist_unit : forall S S2,
+  (pc_T3_unit_rot Rops S -> m_twist3_unit Rops S = Some (tr_T3_unit_rot Rops S)) /\
+  (pc_T3_unit_irr Rops S -> m_twist3_unit Rops S = Some (tr_T3_unit_irr Rops S)) /\
+  (pc_T3_unit_rot Rops S \/ pc_T3_unit_irr Rops S \/ pc_unittwist_none Rops S) /\
+  (pc_T2_unit_rot Rops S2 -> m_twist2_unit Rops S2 = tr_T2_unit_rot Rops S2) /\
+  (pc_T2_unit_irr Rops S2 -> m_twist2_unit Rops S2 = tr_T2_unit_irr Rops S2) /\
+  (pc_T2_unit_rot Rops S2 \/ pc_T2_unit_irr Rops S2).
+Proof.
+  intros S S2. split; [|split; [|split; [|split; [|split]]]].
+  - intros H. bridge.
+  - intros H. bridge.
+  - open_all.
+    match goal with |- (Rltb ?a ?b = false /\ Rltb ?c ?d = false /\ _) \/ _ => destruct (Rltb a b); destruct (Rltb c d) end; auto.
+  - intros H. bridge.
+  - intros H. bridge.
+  - open_all. match goal with |- (Rltb ?a ?b = false /\ _) \/ _ => destruct (Rltb a b) end; auto.
+Qed.
+Print Assumptions C14_bridge_twist_unit.
+
+Theorem C14_bridge_trnorm2 : forall R A,
+  (pc_trnorm22 Rops R -> m_trnorm22 Rops R = Some (tr_trnorm22 Rops R)) /\
+  (pc_trnorm22_none Rops R -> m_trnorm22 Rops R = None) /\ (pc_trnorm22 Rops R \/ pc_trnorm22_none Rops R) /\
+  (pc_trnorm23 Rops A -> m_trnorm23 Rops A = Some (tr_trnorm23 Rops A)).
+Proof.
+  intros R A. split; [|split; [|split]].
+  - intros H. bridge.
+  - intros H. bridge.
+  - open_all. match goal with |- (Rltb ?a ?b = true /\ _) \/ _ => destruct (Rltb a b) end; auto.
+  - intros H. bridge.
+Qed.
+Print Assumptions C14_bridge_trnorm2.
 
 Theorem C14_bridge_angdiff : forall a b,
   m_angdiff1 Rops a = tr_angdiff1 Rops a /\ m_angdiff2 Rops a b = tr_angdiff2 Rops a b.
